@@ -54,7 +54,7 @@ class Mon:
     def attach(self):
         from pydrobert.speech import util as U
 
-        monitor.attach(U, "read_signal", pre=self.pre, post=self.post, is_method=False)
+        monitor.attach(U, "read_signal", pre=self.pre, post=self.post, is_method=False, ambient=self.v, ambient_ok=monitor.named_file)
 
     def v(self, what, **kw):
         self.rec.violation(dict(what=what, case=self.case, **kw))
@@ -341,6 +341,10 @@ def make_spec(seed, idx):
     rng = rng_for(seed, "C12", idx, 0)
     coding = str(rng.choice(["pcm", "pcm", "ulaw", "alaw"]))
     c = int(rng.choice([1, 2, 3, 4, 5, 6, 7, 8]))
+    if idx % 25 == 13:
+        # many channels (microphone arrays, multiplexed recordings): a frame of one sample per channel that is as long as, or longer
+        # than, any plausible read-block size (2^14 bytes among them)
+        c = int(rng.choice([9, 16, 63, 64, 100, 255, 256, 1000, 4096, 8191, 8192, 8193, 10000, 16383, 16384, 16385, 20000, 40000]))
     b = 2 if coding == "pcm" else 1
     per = 16384 // (c * b)
     n = int(rng.choice([1, 2, max(1, per - 1), per, per + 1, 2 * per, 2 * per + 1, 3 * per - 1, 3 * per + 2, 5 * per + 1, int(rng.integers(1, 40000 // c + 2)), int(rng.integers(1, 300))]))
